@@ -182,3 +182,20 @@ def rw_unwrap_ref(rng, p: float):
         return s
     fn.count = count
     return fn
+
+
+def rw_nullable_allof_multi(rng, p: float):
+    """`nullable: true` beside a composing allOf (several members / an inline member), annotations beside it ->
+    the 3.1 spelling `oneOf: [{type: null}, {allOf: [...]}]` with the annotations kept on the union."""
+    count = [0]
+
+    def fn(s, pos):
+        a = s.get("allOf")
+        if s.get("nullable") and isinstance(a, list) and (len(a) > 1 or (a and "$ref" not in a[0])) and "properties" not in s and "type" not in s and pos != "component" and rng.random() <= p:
+            count[0] += 1
+            out = {k: v for k, v in s.items() if k not in ("nullable", "allOf")}
+            out["oneOf"] = [{"type": "null"}, {"allOf": a}]
+            return out
+        return s
+    fn.count = count
+    return fn
